@@ -52,26 +52,61 @@ Proof.
   intros s m e H. cbn [B2R]. intro E. apply eq_0_F2R in E. destruct s; cbn in E; discriminate.
 Qed.
 
+(* ---- a proof that does not depend on how the conditions of validate_coordinate are arranged in the source:
+   every floating-point comparison between finite values is turned into the comparison of the real values, then all
+   comparisons are case-split and each leaf is closed by linear real arithmetic. ---- *)
+Lemma f_lt_R : forall u v : F, is_finite u = true -> is_finite v = true -> f_lt u v = Rlt_bool (B2R u) (B2R v).
+Proof. intros u v Hu Hv. unfold f_lt. apply Bltb_correct; assumption. Qed.
+Lemma f_gt_R : forall u v : F, is_finite u = true -> is_finite v = true -> f_gt u v = Rlt_bool (B2R v) (B2R u).
+Proof. intros u v Hu Hv. unfold f_gt. apply Bltb_correct; assumption. Qed.
+Lemma f_le_R : forall u v : F, is_finite u = true -> is_finite v = true -> f_le u v = Rle_bool (B2R u) (B2R v).
+Proof. intros u v Hu Hv. unfold f_le. apply Bleb_correct; assumption. Qed.
+Lemma f_ge_R : forall u v : F, is_finite u = true -> is_finite v = true -> f_ge u v = Rle_bool (B2R v) (B2R u).
+Proof. intros u v Hu Hv. unfold f_ge. apply Bleb_correct; assumption. Qed.
+Lemma f_eq_R : forall u v : F, is_finite u = true -> is_finite v = true -> f_eq u v = Req_bool (B2R u) (B2R v).
+Proof. intros u v Hu Hv. unfold f_eq. apply Beqb_correct; assumption. Qed.
+Lemma f_ne_R : forall u v : F, is_finite u = true -> is_finite v = true -> f_ne u v = negb (Req_bool (B2R u) (B2R v)).
+Proof. intros u v Hu Hv. unfold f_ne. f_equal. apply Beqb_correct; assumption. Qed.
+Lemma finite_abs : forall u : F, is_finite u = true -> is_finite (f_abs u) = true.
+Proof. intros u H. unfold f_abs. rewrite is_finite_Babs. exact H. Qed.
+Lemma finite_zero_bits : is_finite (f_of_bits 0) = true. Proof. rewrite zero_bits. reflexivity. Qed.
+Lemma finite_f_zero : is_finite f_zero = true. Proof. reflexivity. Qed.
+Lemma B2R_zero_bits : B2R (f_of_bits 0) = 0. Proof. rewrite zero_bits. reflexivity. Qed.
+Lemma B2R_f_zero : B2R f_zero = 0. Proof. reflexivity. Qed.
+Lemma B2R_f_abs : forall u : F, B2R (f_abs u) = Rabs (B2R u). Proof. intros u. unfold f_abs. apply B2R_Babs. Qed.
+Lemma pow_m142_lt_201 : two_pow (-142) < two_pow 201. Proof. apply bpow_lt; lia. Qed.
+Lemma pow_m142_pos : 0 < two_pow (-142). Proof. apply bpow_gt_0. Qed.
+
+Ltac finite_side :=
+  first [ assumption | exact MIN_finite | exact MAX_finite | exact finite_zero_bits | exact finite_f_zero
+        | apply finite_abs; assumption ].
+Ltac to_reals :=
+  repeat first
+    [ rewrite f_lt_R by finite_side | rewrite f_gt_R by finite_side | rewrite f_le_R by finite_side
+    | rewrite f_ge_R by finite_side | rewrite f_eq_R by finite_side | rewrite f_ne_R by finite_side ];
+  rewrite ?B2R_f_abs, ?MIN_is_2_pow_m142, ?MAX_is_2_pow_201, ?B2R_zero_bits, ?B2R_f_zero.
+Ltac split_comparisons :=
+  repeat match goal with
+         | |- context [Rlt_bool ?a ?b] => destruct (Rlt_bool_spec a b)
+         | |- context [Rle_bool ?a ?b] => destruct (Rle_bool_spec a b)
+         | |- context [Req_bool ?a ?b] => destruct (Req_bool_spec a b)
+         end.
+
 Theorem validate_coordinate_classify : forall x : F, validate_coordinate x = classify x.
 Proof.
   intros x. unfold validate_coordinate, classify.
   destruct x as [s | s | | s m e H].
   - destruct s; vm_compute; reflexivity.
   - destruct s; vm_compute; reflexivity.
-  - reflexivity.
+  - vm_compute; reflexivity.
   - set (x := B754_finite s m e H : F).
     assert (Hf : is_finite x = true) by reflexivity.
-    assert (Hfa : is_finite (f_abs x) = true) by reflexivity.
-    change (f_is_nan x) with false. cbv iota.
-    unfold f_lt, f_gt, f_ne.
-    rewrite (Bltb_correct _ _ _ _ Hfa MIN_finite).
-    rewrite (Bltb_correct _ _ _ _ MAX_finite Hfa).
-    rewrite zero_bits.
-    rewrite (Beqb_correct _ _ x (B754_zero false) Hf eq_refl).
-    unfold f_abs. rewrite B2R_Babs, MIN_is_2_pow_m142, MAX_is_2_pow_201.
-    change (B2R (B754_zero false)) with 0.
-    rewrite Req_bool_false by (apply finite_nonzero).
-    cbn [negb]. rewrite andb_true_r. reflexivity.
+    assert (Hnz : B2R x <> 0) by (apply finite_nonzero).
+    assert (Hpos : 0 < Rabs (B2R x)) by (apply Rabs_pos_lt; exact Hnz).
+    pose proof pow_m142_lt_201 as Hlt. pose proof pow_m142_pos as Hp0.
+    change (f_is_nan x) with false. cbv iota zeta.
+    to_reals.
+    split_comparisons; cbn [negb andb orb]; try reflexivity; try (exfalso; lra); try (exfalso; congruence).
 Qed.
 
 (* The documented statement in `iff` form. *)
@@ -145,37 +180,33 @@ Proof.
 Qed.
 
 (* mitigate_underflow never yields a value that fails with TooSmall, and changes nothing else. *)
+Lemma mitigate_cases : forall x : F,
+  mitigate_underflow_for_coordinate x = (match classify x with Err TooSmall => f_zero | _ => x end).
+Proof.
+  intros x. unfold mitigate_underflow_for_coordinate, classify.
+  destruct x as [s | s | | s m e H].
+  - destruct s; vm_compute; reflexivity.
+  - destruct s; vm_compute; reflexivity.
+  - vm_compute; reflexivity.
+  - set (x := B754_finite s m e H : F).
+    assert (Hf : is_finite x = true) by reflexivity.
+    assert (Hnz : B2R x <> 0) by (apply finite_nonzero).
+    assert (Hpos : 0 < Rabs (B2R x)) by (apply Rabs_pos_lt; exact Hnz).
+    pose proof pow_m142_lt_201 as Hlt. pose proof pow_m142_pos as Hp0.
+    cbv zeta. to_reals.
+    split_comparisons; cbn [negb andb orb]; try reflexivity; try (exfalso; lra); try (exfalso; congruence).
+Qed.
+
 Theorem mitigate_never_too_small : forall x : F,
   validate_coordinate (mitigate_underflow_for_coordinate x) <> Err TooSmall.
 Proof.
-  intros x. rewrite validate_coordinate_classify. unfold mitigate_underflow_for_coordinate.
-  destruct x as [s | s | | s m e H].
-  - destruct s; vm_compute; discriminate.
-  - destruct s; vm_compute; discriminate.
-  - vm_compute; discriminate.
-  - set (x := B754_finite s m e H : F).
-    assert (Hf : is_finite x = true) by reflexivity.
-    assert (Hfa : is_finite (f_abs x) = true) by reflexivity.
-    unfold f_ne, f_lt.
-    rewrite (Beqb_correct _ _ x f_zero Hf eq_refl).
-    change (B2R f_zero) with 0. rewrite Req_bool_false by (apply finite_nonzero). cbn [negb andb].
-    rewrite (Bltb_correct _ _ _ _ Hfa MIN_finite). unfold f_abs. rewrite B2R_Babs, MIN_is_2_pow_m142.
-    destruct (Rlt_bool_spec (Rabs (B2R x)) (two_pow (-142))) as [H1 | H1].
-    + vm_compute; discriminate.
-    + unfold classify. fold x. rewrite Rlt_bool_false by exact H1.
-      destruct (Rlt_bool _ _); discriminate.
+  intros x. rewrite mitigate_cases, validate_coordinate_classify.
+  destruct (classify x) as [[]|[]] eqn:E; try (rewrite E; discriminate).
+  vm_compute; discriminate.
 Qed.
 
 Theorem mitigate_identity_when_valid : forall x : F,
   validate_coordinate x = Ok tt -> mitigate_underflow_for_coordinate x = x \/ (B2R x = 0 /\ mitigate_underflow_for_coordinate x = x).
 Proof.
-  intros x Hv. left. unfold mitigate_underflow_for_coordinate.
-  rewrite validate_coordinate_classify in Hv. unfold classify in Hv.
-  destruct x as [s | s | | s m e H]; try discriminate.
-  - destruct s; reflexivity.
-  - set (x := B754_finite s m e H : F) in *.
-    assert (Hfa : is_finite (f_abs x) = true) by reflexivity.
-    unfold f_lt. rewrite (Bltb_correct _ _ _ _ Hfa MIN_finite). unfold f_abs. rewrite B2R_Babs, MIN_is_2_pow_m142.
-    destruct (Rlt_bool (Rabs (B2R x)) (two_pow (-142))); [discriminate|].
-    rewrite andb_false_r. reflexivity.
+  intros x Hv. left. rewrite mitigate_cases. rewrite validate_coordinate_classify in Hv. rewrite Hv. reflexivity.
 Qed.
